@@ -112,6 +112,39 @@ CHECKS.update({
    tech="Lean 4 proof (stack = hull-of-prefix invariant with ring-checked orientation identities) + exact differential correspondence + brute-force relational spec",
    ref="DESIGN.md §3 C18"),
 })
+CHECKS.update({
+ 'C08': dict(
+   text="Lean theorems pipeline_wf / pipeline_hull_wf for the composed post-detection pipeline (worst -> corner -> cluster filter -> mapping), for every height function, IoU/score/hull-error oracle, "
+        "labelling and threshold: every filter stage is a Sublist of its input, heights are non-increasing from the worst-knee filter on, the mapped output equals reduced[k] for the surviving "
+        "reduced-space knees, is strictly increasing and a subset of the retained points. The simplifier and multi-knee stages are C01/C02 theorems (well-formed reduction; strictly increasing interior knees). "
+        "Tie: the real pipeline exactly as the demos compose it (5 simplifiers x 5 detectors x 4 linkages x 4 ranking modes) compared stage by stage with the models, on synthetic families and the bundled traces.",
+   note=TB + " Each model stage is fed the real output of the previous stage; a whole-pipeline model run is the composition of those stage functions.",
+   tech="Lean 4 proof (composition of the stage theorems C07/C12/C13 with a sublist/monotone-map argument) + stage-by-stage exact differential correspondence of the real pipeline",
+   ref="DESIGN.md §3 C08"),
+ 'C12': dict(
+   text="Lean theorems for every score / hull-error / area oracle and every labelling: groups_flatten, groups_ordered; pickByRank_max (argmax of the ranks is a maximiser of the scores); "
+        "clusterFilter_one_per_cluster (exactly one member of every cluster, maximal score in multi-member clusters), clusterFilter_sublist/_strict; clusterFilterHull_sublist/_strict/_at_most_one/_needs_hull; "
+        "clusterFilterCorners_max (first maximiser of the corner-triangle score). Tie: exact correspondence of filter_clusters (4 modes x 4 linkages) and filter_clusters_corners with oracle values from "
+        "smooth_ranking / shortest_distance_points / rank_corners_triangle / graham_scan_lower; relational on equal scores.",
+   note=TB + " NumPy's argsort tie order is not modelled: on equal scores only the specification predicate (chosen member attains the maximum) is checked.",
+   tech="Lean 4 proof (grouping by contiguous labels; rank/argmax lemmas) + exact oracle-fed differential correspondence, relational on ties",
+   ref="DESIGN.md §3 C12"),
+ 'C14': dict(
+   text="Lean theorems: evenInsert_length/range/spaced (ceil(w/2tx) evenly index-spaced points inside the segment), dedupSort = sorted duplicate-free union, addEven_eq (both mapping calls are reduced[.] by C07), "
+        "addEven_valid / addEvenKnees_valid (every returned index < n), _strict, _heights (running-minimum filtered), addEvenKnees_mem (every result is a knee, an inserted point of a wide gap or an end point), "
+        "nptsQ_ge_two. Tie: exact correspondence of add_points_even / add_points_even_knees with the two float decisions per segment as oracles, exact-Q decisions on conclusive cases, independent reference predicate.",
+   note=TB + " The float decisions (width/height test, ceil) are oracles evaluated by the harness from the property's definition.",
+   tech="Lean 4 proof (index arithmetic, dedup-sort, reuse of C07 and C13 theorems) + exact oracle-fed differential correspondence",
+   ref="DESIGN.md §3 C14"),
+ 'C15': dict(
+   text="Lean theorems: cache transparency as a state-machine invariant over ALL query histories (lookupSeg_ok, evalSegs_ok, evalShared_eq_fresh, runShared_eq_fresh: any sequence of breakpoint sets against one "
+        "shared cache returns the fresh-cache values), gcost_nonneg, gcost_all_breakpoints (0, or 1 for R2), segments_le2_zero, gcost_divisor (n + #segments - 1), gcost_r2_clip, partialQ_nonneg, grmseSq_nonneg, "
+        "median/MAD lemmas. Tie: value correspondence of compute_global_cost with the model fed per-segment partial costs (1e-12) and with the fully exact-Q model (1e-9, y bounded away from 0 for ratio metrics); "
+        "bit-wise shared == fresh on the real code and cache contents == fresh values over random query histories; global RMSE vs np.interp; MIP vs the model.",
+   note=TB + " One cache serves one (curve, metric) - the cache key carries no metric. sqrt is a parameter (rooted metrics compared by squares).",
+   tech="Lean 4 proof (cache invariant by induction over the query history; algebra over Q) + value correspondence and bit-wise cache-transparency predicate",
+   ref="DESIGN.md §3 C15"),
+})
 NA = {}
 props = [json.loads(l) for l in open(os.path.join(V, 'properties.jsonl'))]
 checks = []
